@@ -118,6 +118,11 @@ class _client_bidding:
                     iff(passed_out(result), bp_lb(env) is None),
                     implies(not passed_out(result), result.final_bid is bp_lb(env)))
 
+    # (what a caller may rely on)
+    def ensures_a_contract_of_this_board(self, result):
+        return conj(valid_contract(result), result.vul is self.vul,
+                    implies(not passed_out(result), result.declarer is not None))
+
     # the client's own call is never rejected by its replica (the only local Exception('') that can
     # fire is for a received call)
     def excensures_own_call_never_rejected(self, frame):
@@ -197,3 +202,111 @@ class _client_playing:
 
     def requires_a_real_contract(self, contract):
         return conj(valid_contract(contract), not passed_out(contract), contract.declarer is not None)
+
+
+# ---- the rest of the client's session: handshake, deal, board loop -------------------------------
+
+from pyvc.dsl import DecodedStr
+from pyvc.speclib import call_arg, call_result, calls_since
+from pyvc.dsl import transparent as _transparent
+
+_transparent('bridge_env.network_bridge.socket_interface.SocketInterface.connect_socket', props=P + ['C20'])
+
+RECV = MessageInterface.receive_message
+
+
+@contract('bridge_env.network_bridge.client.Client._deal', props=P)
+class _client_deal:
+    raises = {Exception: 'onlyif'}
+    exc_havoc = True
+    modifies = ['self.connection_socket', 'self.board_num', 'self.dealer', 'self.vul',
+                'self.hand_set', 'self.hand_binary']
+    note = ('raises only when a received message is unparseable or the connection is closed')
+
+    # C11: the replica's board is the one announced: the header is the first message received after
+    # "ready for deal", the hand is what the second message (asked for with "ready for cards")
+    # says about the client's OWN seat, and both are stored unchanged
+    def ensures_board_and_hand_as_announced(self, old, frame):
+        me = G.FORMAL[self.player]
+        header = call_result(None, Client.parse_board, 0)
+        hand = call_result(None, Client.parse_hand, 0)
+        return conj(
+            sent(self) == sent(old.self) + [line(me + ' ready for deal'),
+                                            line(me + ' ready for cards')],
+            calls_since(None, RECV) == 2,
+            same(call_arg(None, Client.parse_board, 0, 'content'), call_result(None, RECV, 0)),
+            self.board_num == header[0], self.dealer is header[1], self.vul is header[2],
+            same(call_arg(None, Client.parse_cards, 0, 'content'), call_result(None, RECV, 1)),
+            call_arg(None, Client.parse_cards, 0, 'player_name') == me,
+            same(call_arg(None, Client.parse_hand, 0, 'content'),
+                 call_result(None, Client.parse_cards, 0)),
+            same(self.hand_set, hand[0]), same(self.hand_binary, hand[1]),
+            self.player is old.self.player)
+
+
+@contract('bridge_env.network_bridge.client.Client._connect', props=P + ['C20'])
+class _client_connect:
+    raises = {Exception: 'onlyif'}
+    exc_havoc = True
+    modifies = ['self.connection_socket', 'self.opponent_team_name']
+    note = ('the conforming side of the admission handshake (C20): raises when the table manager '
+            'answers anything but the seating confirmation, or names another team for this side')
+
+    # C20/C11: the three messages of the handshake, in order, with the client's own seat, team and
+    # protocol version 18; the opponents' name is the other side's name of the Teams message
+    def ensures_handshake_as_the_protocol_prescribes(self, old, frame):
+        me = self.player
+        teams = call_result(None, Client.parse_team_names, 0)
+        mine, theirs = (teams[0], teams[1]) if G.SIDE[me] is Pair.NS else (teams[1], teams[0])
+        return conj(
+            sent(self) == sent(old.self) + [
+                line(PR.enc_connect(self.team_name, me, 18)),
+                line(G.FORMAL[me] + ' ready for teams'),
+                line(G.FORMAL[me] + ' ready to start')],
+            calls_since(None, RECV) == 2,
+            same(call_arg(None, Client.parse_team_names, 0, 'content'), call_result(None, RECV, 1)),
+            mine == self.team_name,
+            self.opponent_team_name == theirs,
+            self.player is old.self.player, self.team_name == old.self.team_name)
+
+    # the seating confirmation must be for this seat and this team (either spelling)
+    def ensures_seated_as_asked(self, old, frame):
+        me = G.FORMAL[self.player]
+        reply = frame.reply
+        return disj(reply == me + ' ' + self.team_name + ' seated',
+                    reply == me + ' ("' + self.team_name + '") seated')
+
+
+def _run_inv(self):
+    return client_inv(self)
+
+
+def _one_board_per_iteration(self, iter, contract, message):
+    """C11 (the client completes what the server completes): each pass of the loop is one board:
+    the deal, the auction, the play exactly when the auction was not passed out -- with the
+    contract the auction returned -- and then exactly one further message is read."""
+    played = calls_since(iter, Client.playing_phase)
+    return conj(
+        calls_since(iter, Client._deal) == 1,
+        calls_since(iter, Client.bidding_phase) == 1,
+        same(contract, call_result(iter, Client.bidding_phase, 0)),
+        played == (0 if passed_out(contract) else 1),
+        played == 0 or same(call_arg(iter, Client.playing_phase, 0, 'contract'), contract),
+        calls_since(iter, RECV) == 1,
+        same(message, call_result(iter, RECV, 0)))
+
+
+@contract('bridge_env.network_bridge.client.Client.run', props=P)
+class _client_run:
+    raises = {Exception: 'onlyif', AssertionError: 'onlyif', ValueError: 'onlyif'}
+    exc_havoc = True
+    modifies = ['self']
+    loops = {0: LoopContract(invariant=_run_inv,
+                             havoc=dict(message=DecodedStr(), board_num=Int(0)),
+                             havoc_heap={'self': ClientShape},
+                             body_ensures=dict(one_board_per_iteration=_one_board_per_iteration))}
+    note = ('the session ends normally only on "End of session"; every other message between '
+            'boards must be "Start of board" in any letter case')
+
+    def ensures_stops_at_end_of_session(self, frame):
+        return frame.message == 'End of session'
